@@ -166,6 +166,8 @@ fn python_parse(docs: &[String]) -> Vec<J> {
         vcommon::machinery_failure("C27: cannot write the XML batch file");
     }
     let out = std::process::Command::new("python3")
+        .arg("-I")
+        .arg("-S")
         .arg("-c")
         .arg(PY)
         .arg(&path)
